@@ -47,6 +47,10 @@ DOCS = [
      '<form><input type="radio" name="g" checked><input type="submit"></form></body></html>'),
     ('xml', '<r xmlns:x="urn:x"><x:item id="1"/><x:item id="2" checked="checked"/><x:item id="3" disabled="disabled"/><item id="4"/>'
      '<x:item id="5"><x:item id="6"/></x:item></r>'),
+    # radio groups of one form whose names differ only in case / surrounding white space: different groups, in both evaluation orders
+    ('html.parser', '<html><body><form><input type="radio" name="Size" id="z1"><input type="radio" name="Size" id="z2">'
+     '<input type="radio" name="size" id="z3" checked><input type="radio" name="size" id="z4"><input type="radio" name="size " id="z5"></form>'
+     '<form><input type="radio" name="k" id="z6" checked><input type="radio" name="K" id="z7"><input type="radio" name="k" id="z8"></form></body></html>'),
 ]
 NS = {'x': 'urn:x'}
 
@@ -61,7 +65,8 @@ def _rand_doc(rng):
             return '<div%s>%s</div>' % (rng.choice(['', ' lang=""', ' lang="fr"', ' dir="rtl"']), ''.join(block(depth + 1) for _ in range(rng.randint(1, 3))))
         if k == 2:
             name = rng.choice(['g', 'h'])
-            return '<form>%s%s</form>' % (''.join('<input type="radio" name="%s"%s>' % (rng.choice([name, 'k']), rng.choice(['', '', ' checked']))
+            # group names that collide under case folding / trimming are DIFFERENT groups (memo keys must not be normalised)
+            return '<form>%s%s</form>' % (''.join('<input type="radio" name="%s"%s>' % (rng.choice([name, name.upper(), name + ' ', 'k']), rng.choice(['', '', ' checked']))
                                                   for _ in range(rng.randint(1, 3))),
                                           rng.choice(['', '<input type="submit">', '<button type="submit">b</button><input type="submit">']))
         if k == 3 and depth < 2:
